@@ -4,6 +4,7 @@ import ScVerif.C19.Events
 import ScVerif.C19.Named
 import ScVerif.C19.Keyed
 import ScVerif.C19.Icpt
+import ScVerif.C19.ActiveW
 /-! Driver handler for C19 (stateful: one electric model per driver process, `reset` starts afresh).  The state is
 the KEYED model (`Keyed.lean`: records stored under keys); on states where every record carries its key it is the
 model of `Electric.lean` (`C19_keyed_refines`), and its events are those of `Events.lean` (`C19_keyed_events`).
@@ -198,13 +199,15 @@ def handleS (k : KSt) (toks : List String) : KSt × String :=
       (k', showRes r ++ " " ++ showSt k'.abs ++ evs)
     | none => (k, "!bad-op")
 
-/-- the driver's state: the keyed model and whether the mode collection was configured with a lower-casing id
-interceptor (`iconfig lower`); without it the operations run `kstep` (= `ikstep` with the identity, `C19_icpt_identity`) -/
+/-- the driver's state: the keyed model, whether the mode collection was configured with a lower-casing id
+interceptor (`iconfig lower`), and the writable fields of the active mode resource (`awconfig`); without either the
+operations run `kstep` (= `ikstep` with the identity, `C19_icpt_identity`; = `wstep none`, `C19_activew_none`) -/
 structure DSt where
   lower : Bool
   k : KSt
+  aw : Option (List Field) := none
 
-def DSt.init : DSt := ⟨false, KSt.init⟩
+def DSt.init : DSt := ⟨false, KSt.init, none⟩
 
 /-- `strings.ToLower` on the ids the harness uses (ASCII) -/
 def lowerId (s : String) : String := s.toLower
@@ -215,24 +218,40 @@ def handleD (d : DSt) (toks : List String) : DSt × String :=
     match parseMode? a, (if rs = "-" then some [] else (rs.splitOn ";").mapM parseRec?) with
     | some a, some rs =>
       match KSt.iconfig? lowerId rs a with
-      | some k0 => (⟨true, k0⟩, "ok " ++ showSt k0.abs)
+      | some k0 => (⟨true, k0, none⟩, "ok " ++ showSt k0.abs)
       | none => (DSt.init, "panic")
     | _, _ => (d, "!bad-op")
+  | ["awconfig", w, a, ms] =>
+    -- NewModel(WithActiveModeOption(resource.WithWritablePaths(&ElectricMode{}, w…)), WithInitialMode(ms…),
+    --          WithInitialActiveMode(a))
+    match parseMask? w, parseMode? a, (if ms = "-" then some [] else (ms.splitOn ";").mapM parseMode?) with
+    | some (some mask), some a, some ms =>
+      match St.config? ms a with
+      | some s0 => (⟨false, KSt.ofSt s0, some mask.paths⟩, "ok " ++ showSt s0)
+      | none => (DSt.init, "panic")
+    | _, _, _ => (d, "!bad-op")
   | _ =>
     let fresh := match toks with
       | ["reset"] => true
       | "config" :: _ => true
       | "kconfig" :: _ => true
       | _ => false
-    if fresh || !d.lower then
+    if fresh || (!d.lower && d.aw.isNone) then
       let (k', s) := handleS d.k toks
-      if s = "!bad-op" then (d, s) else (⟨d.lower && !fresh, k'⟩, s)
-    else
+      if s = "!bad-op" then (d, s) else (⟨d.lower && !fresh, k', if fresh then none else d.aw⟩, s)
+    else if d.lower then
       match parseOp? toks with
       | some op =>
         let (k', r) := ikstep lowerId d.k op
         let evs := s!" events=[{";".intercalate ((ikmodeEvents lowerId d.k op).map showEvent)}] active-events=[{";".intercalate ((ikactiveEvents lowerId d.k op).map showMode)}]"
-        (⟨true, k'⟩, showRes r ++ " " ++ showSt k'.abs ++ evs)
+        (⟨true, k', none⟩, showRes r ++ " " ++ showSt k'.abs ++ evs)
+      | none => (d, "!bad-op")
+    else
+      match parseOp? toks with
+      | some op =>
+        let (k', r) := wstep d.aw d.k op
+        let evs := s!" events=[{";".intercalate ((kmodeEvents d.k op).map showEvent)}] active-events=[{";".intercalate ((wactiveEvents d.aw d.k op).map showMode)}]"
+        (⟨false, k', d.aw⟩, showRes r ++ " " ++ showSt k'.abs ++ evs)
       | none => (d, "!bad-op")
 
 end ScVerif.C19
